@@ -212,6 +212,8 @@ def check_property(pid, tier, seed):
                 all_keys.add(k)
                 per_op[ev["op"]] = per_op.get(ev["op"], 0) + 1
                 if v == "ok":
+                    if prop.get("count_all") and ev["op"] != "SetMode":
+                        nontrivial_keys.add(k)
                     continue
                 if v.startswith("ok+"):
                     nontrivial_keys.add(k)
